@@ -1,5 +1,6 @@
 (* C14 — empty content is dropped by default and kept on request, never the reverse (forest level). *)
 From Mammoth Require Import Html Writer HtmlTables HtmlStrip.
+From Mammoth Require Import Api Cli Convert ConvertSpec MiscSpec MiscFacts.
 Local Open Scope N_scope.
 
 (* a node disappears exactly when it has no content: no non-empty text, no force-write marker
@@ -26,6 +27,18 @@ Proof. exact (strip_text ns). Qed.
 Theorem C14_idempotent (ns : list (node str)) : strip_empty (strip_empty ns) = strip_empty ns.
 Proof. exact (strip_idem ns). Qed.
 
+(* conversion level: with ignore_empty_paragraphs = False every paragraph that no `!` mapping drops yields its block, empty or not *)
+Theorem C14_paragraph_kept_on_request (o : copts) (cm : list comment) cs sid sname num hdr st ns st' t l :
+  o_ignore_empty o = false -> para_path o sid sname num = PElems (t :: l) ->
+  visit o cm (DParagraph cs sid sname num) hdr st = Ok (ns, st') ->
+  exists kids, strip_empty ns = [Elem t kids].
+Proof. exact (paragraph_block_kept o cm cs sid sname num hdr st ns st' t l). Qed.
+(* bookmark anchors and table structure are never dropped *)
+Theorem C14_structure_kept (o : copts) (cm : list comment) (e : delem) hdr st ns st' :
+  (match e with DBookmark _ | DTableRow _ _ | DTableCell _ _ _ => True | _ => False end) ->
+  visit o cm e hdr st = Ok (ns, st') -> forallb nkeep ns = true /\ ns <> [].
+Proof. exact (structure_kept o cm e hdr st ns st'). Qed.
+
 Example C14_witness :
   let p := mkTag [112] [] [] true None in
   let br := mkTag [98;114] [] [] false None in
@@ -39,3 +52,5 @@ Print Assumptions C14_nothing_empty_left.
 Print Assumptions C14_content_preserved.
 Print Assumptions C14_text_preserved.
 Print Assumptions C14_idempotent.
+Print Assumptions C14_paragraph_kept_on_request.
+Print Assumptions C14_structure_kept.
